@@ -27,6 +27,10 @@ def is_cb_call(e):
         and e[2][1][0] == "ref" and e[2][1][1] == "x"
 
 
+def is_cb_any(e):
+    return e[0] == "call" and str(e[1]).split("::")[-1] == "apply" and len(e[2]) == 2 and e[2][0][0] == "ref" and e[2][0][1] == "cb"
+
+
 def disjuncts(e):
     if e[0] == "op" and e[1] == "||":
         return disjuncts(e[2]) + disjuncts(e[3])
@@ -190,6 +194,11 @@ def check(rep, tier, replay=None):
         if pending is not None:
             problems.append((pending, "accepted step is not followed by the callback before the end of the block"))
     scan_block(body)
+    for x in A.walk(b):
+        if x.get("kind") == "CallExpr":
+            e = A.to_expr(x)
+            if is_cb_any(e) and not is_cb_call(e):
+                problems.append((x, "callback is invoked on `%s`, not on the iterate x the arguments hold" % A.show(e[2][1])))
     ok = ok_pre and not problems and n_pairs >= 1
     rep.instance("L3", qn, "callback", ok=ok, sample={"initial_calls": len(pre_calls), "step_callback_pairs": n_pairs})
     if not ok_pre:
